@@ -97,12 +97,26 @@ def run(tier, seed, build):
         lines = [["sequence", "sc", "N" * L, L], ["sequence", "t", "NNN", 3], ["equal", [["sc", False], ["sc", True]]],
                  ["strand", False, "s0", [["t", False], ["sc", False]], L + 3], ["structure", 1, "X", ["s0", "s0"], "..." + "(" * L + "+" + "..." + ")" * L]]
         docs.append({"source": "hand", "lines": lines, "text": pepper.pil_text(rng, lines)})
+    # late odd-length self-complementary classes (unsatisfiable: no files may be written) behind more than 256 positions
+    for i in range(max(2, n // 40)):
+        B = rng.choice([261, 300, 330]); L = rng.choice([1, 3])
+        lines = [["sequence", "big", "N" * B, B], ["strand", False, "sb", [["big", False]], B], ["structure", 1, "Hb", ["sb"], "." * B],
+                 ["sequence", "q", "N" * L, L], ["strand", False, "sq", [["q", False]], L], ["structure", 1, "Hq", ["sq"], "." * L],
+                 ["structure", 1, "D", ["sq", "sq"], "(" * L + "+" + ")" * L]]
+        docs.append({"source": "hand", "lines": lines, "text": pepper.pil_text(rng, lines)})
+    # a design whose first strand ends right before a multiple of 4096 (the writer works block-wise); too large for
+    # the model: only the contract predicate on the real files, the separator check and the binary decide
+    B = 4094
+    lines = [["sequence", "big", "N" * B, B], ["strand", False, "sb", [["big", False]], B], ["structure", 1, "Hb", ["sb"], "." * B],
+             ["sequence", "t", "SWN", 3], ["strand", False, "s2", [["t", False], ["t", True]], 6], ["structure", 1, "H2", ["s2"], "(((" + ")))"]]
+    docs.append({"source": "hand", "lines": lines, "text": pepper.pil_text(rng, lines), "nomodel": True})
     impl = fw.run_impl("props.c05", "impl_case", [{"text": d["text"], "binary": binary, "seed": rng.randrange(10**9)} for d in docs], per_case_timeout=120, procs=8)
     reqs = []; where = []
     for i, (d, r) in enumerate(zip(docs, impl)):
         for so in (False, True):
             lay = "struct" if so else "strand"
-            reqs.append(["files", [c04.lines_sexp(d["lines"]), so]]); where.append((i, lay, "model"))
+            if not d.get("nomodel"):
+                reqs.append(["files", [c04.lines_sexp(d["lines"]), so]]); where.append((i, lay, "model"))
             if isinstance(r, dict) and r.get(lay, {}).get("outcome") == "ok":
                 try:
                     reqs.append(["contract", [parse_ints(r[lay]["eq"]), parse_ints(r[lay]["wc"]), r[lay]["st"]]]); where.append((i, lay, "contract"))
@@ -117,7 +131,7 @@ def run(tier, seed, build):
             failures.append({"kind": "disagreement", "key": "impl-run", "summary": "runner failed: %r" % (r,), "replay": {"text": d["text"]}}); continue
         for so in (False, True):
             lay = "struct" if so else "strand"
-            a = r[lay]; m = got[(i, lay, "model")]
+            a = r[lay]; m = got.get((i, lay, "model"), ("ok", None, None, None))
             rep = {"files": {"doc.pil": d["text"]}, "layout": lay,
                    "reproduce": "pepper-design-spurious doc.pil --just-files %s -t tmp; spuriousSSM score=automatic template=tmp.st wc=tmp.wc eq=tmp.eq imax=1 quiet=TRUE" % ("--struct" if so else "")}
             if a["outcome"] != "ok":
@@ -132,7 +146,7 @@ def run(tier, seed, build):
                 eq = parse_ints(a["eq"]); wc = parse_ints(a["wc"])
             except ValueError:
                 failures.append({"kind": "predicate", "key": "files-unparsable", "summary": "eq/wc file is not a list of integers", "replay": rep}); continue
-            if [str(x) for x in eq] != list(m[1]) or [str(x) for x in wc] != list(m[2]) or a["st"] != m[3]:
+            if m[1] is not None and ([str(x) for x in eq] != list(m[1]) or [str(x) for x in wc] != list(m[2]) or a["st"] != m[3]):
                 failures.append({"kind": "disagreement", "key": "files-differ", "summary": "file contents differ from the model's", "replay": dict(rep, model=str(m)[:800], files=str(a)[:800])})
             if got.get((i, lay, "contract")) != "T":
                 failures.append({"kind": "predicate", "key": "contract:" + lay, "summary": "the written st/wc/eq triple violates the spuriousSSM input contract (%s layout)" % lay, "replay": dict(rep, st=a["st"], wc=a["wc"], eq=a["eq"])})
@@ -146,7 +160,7 @@ def run(tier, seed, build):
                     failures.append({"kind": "predicate", "key": "binary:" + lay, "summary": "spuriousSSM built from the working tree does not accept the written triple: rc=%s %s" % (run_["rc"], run_["stderr"][-200:].replace("\n", " | ")), "replay": dict(rep, st=a["st"], wc=a["wc"], eq=a["eq"])})
             if any(x != -1 for x in wc): nontrivial.add(d["text"] + lay)
     return {"evaluations": 2 * len(docs), "distinct_nontrivial": len(nontrivial),
-            "rule": "PIL documents as in C04 plus self-complementary even-length domains in homodimers; design(..., just_files=True) in both layouts; contents compared with the model, checked with the Coq-extracted contract predicate and a separator check, and fed twice (harness-chosen and random initial sequence) to an ASan/UBSan spuriousSSM built from the working tree (imax=1). Non-trivial = some position has a complement",
+            "rule": "PIL documents as in C04 plus self-complementary even-length domains in homodimers, odd-length self-complementary classes placed behind more than 256 positions (no files may be written), and one 4100-position design whose first strand ends right before position 4096 (contract predicate, separators and binary only); design(..., just_files=True) in both layouts; contents compared with the model, checked with the Coq-extracted contract predicate and a separator check, and fed twice (harness-chosen and random initial sequence) to an ASan/UBSan spuriousSSM built from the working tree (imax=1). Non-trivial = some position has a complement",
             "samples": [d["text"] for d in docs[:2]], "distribution": dist, "failures": failures}
 
 def replay(path):
